@@ -109,8 +109,11 @@ def run_case(ctx, idx, rng, tier):
         P = [param.concretize(o, vals) for o in T]
         return run_direct(ctx, dev, regB, P)
 
+    # a nearly identical assignment (relative change 3e-6): must not be served from the previous build
+    v1eps = {n: ([x * (1 + 3e-6) for x in v] if isinstance(v, list) else v * (1 + 3e-6)) if t.kinds[n] == "float" else v
+             for n, v in v1.items()}
     results = {}
-    for tag, vals in (("v1", v1), ("v2", v2), ("v1again", v1)):
+    for tag, vals in (("v1", v1), ("v1eps", v1eps), ("v2", v2), ("v1again", v1)):
         before = state_key(snapshot(seqA))
         try:
             built, bexc = build(copy.deepcopy(vals)), None
